@@ -28,6 +28,10 @@ CHECKS = {
    text="For 3 histories and both memstore options, every single placement (quick) and every ordered pair of placements (thorough) of 8 interfering events at every position from the scan snapshot to the last key is executed with exact quiescence inside the scan's callback; every delivered row must equal the reference model at scan start.",
    note="Interleavings are at row-callback granularity (plus the snapshot hook); unsynchronised accesses are outside this check.",
    ref="§3 C18"),
+ "C17": dict(cat="model_checking", tech="exhaustive enumeration of coalesced batches with harness-controlled batch composition on the real doProcessIterations",
+   text="The iteration intercept parks every scan request; the harness hands exactly the chosen batch (all 2- and 3-subsets of a 10-query alphabet in quick; all 4-subsets with every split into two successive batches and the 8- and 10-query batches in thorough) to the real doProcessIterations, on 4 datasets × {memory, disk, split}; every query's rows and error must equal its solo run; each batch runs 4 times because Go map order inside the combined callback is uncontrolled.",
+   note="Arrival inside/outside the coalesce interval is modelled as the choice of batch composition; the coalescer's timer itself is not exercised. For LIMIT / failing consumers the row count is compared.",
+   ref="§3 C17"),
 }
 
 NOT_YET = {}
